@@ -1,7 +1,7 @@
 """Rules about the builder, rewrite, flatten and the source-root cache (C08, C09, C13)."""
 import absint
 import q
-from mir import Agg, Bin, Call, Const, Named, Var
+from mir import Agg, Bin, Call, Const, Deref, Named, Ref, Var
 from rules.common import expect_defs, has_fact, loop_passes, must_pass, opt_fact
 from rules.typesrules import field_writers
 
@@ -153,6 +153,21 @@ def rewrite_loop(ctx, rule):
     ctx.check(len(tk) == 1 and len(fin) == 1 and b.dominates(tk[0][0], fin[0][0]), rule, fn, "mapping", "the old-id mapping is taken before the builder is consumed")
     sp = q.calls_to(b, B + "strip_prefixes")
     ctx.check(len(sp) == 1 and len(fin) == 1 and b.reaches(sp[0][0], fin[0][0]), rule, fn, "strip-before-finish", "prefixes are stripped before the map is finished")
+    # the first matching prefix wins, so the list strip_prefixes receives must be in the order the options gave it:
+    # the vector is only appended to (no sort, dedup, reverse, retain, swap ... between collecting and stripping)
+    if sp:
+        arg = q.arg_expr(b, sp[0][1], 1)
+        while isinstance(arg, (Ref, Deref)) or (isinstance(arg, Call) and q.nice(arg.callee) in ("Deref::deref", "Vec::as_slice", "AsRef::as_ref") and arg.args):
+            arg = arg.args[0] if isinstance(arg, Call) else arg.x
+        try:
+            L = q.root_local(arg)
+        except Exception:
+            L = None
+        if ctx.check(L is not None, rule, fn, "prefixes:list", "the prefix list handed to strip_prefixes is a local vector", detail=q.shape(arg)[:200]):
+            from rules.common import mut_borrow_users
+            users = sorted(set(c for _, c in mut_borrow_users(b, L)))
+            ctx.check(all(c in ("Vec::push", "Vec::extend", "Extend::extend", "Vec::extend_from_slice", "Vec::reserve", "Vec::append") for c in users), rule, fn, "prefixes:order-as-given",
+                      "the prefix list is only appended to (first matching prefix wins: sorting, deduplicating or otherwise reordering it changes which prefix a source loses)", detail=str(users))
 
 
 def contents_predicates(ctx, rule):
@@ -661,6 +676,16 @@ def flatten_translation(ctx, rule):
     errs = [bi for bi, si in q.err_variant_constructions(b, "CannotFlatten")]
     ok = any(has_fact(b, bi, r, *opt_fact("none", "SourceMapSection::get_sourcemap(section)")) for bi in errs)
     ctx.check(ok, rule, fn, "unresolved:error", "a section without an embedded map makes flatten fail with CannotFlatten")
+    # ... every one of them: no path on which the section is known to have no map leads on to the next section
+    heads = [bi for bi, t in q.calls_to(b, "Iterator::next") if "SourceMapIndex::sections(arg1)" in q.shape(b.expr_of_call(t), r) or "SourceMapSectionIter" in q.shape(b.expr_of_call(t), r)]
+    skipping = []
+    if heads:
+        for bb in b.reachable_blocks():
+            if b.blocks[bb]["cleanup"] or bb in heads or not any(b.reaches(bb, h) for h in heads):
+                continue
+            if has_fact(b, bb, r, *opt_fact("none", "SourceMapSection::get_sourcemap(section)")):
+                skipping.append(ctx.site(b, bb))
+    ctx.check(bool(heads) and not skipping, rule, fn, "unresolved:no-skip", "no unresolved section is skipped: once a section is known to have no embedded map, flatten does not go on to the next section", detail=str(skipping[:3]))
     it = named(b, lambda s: s == "IntoIterator::into_iter(SourceMapIndex::sections(arg1))")
     it2 = [s for l in sorted(b.var_names) for s, _, _ in q.def_shapes(b, l, r) if s == "IntoIterator::into_iter(SourceMap::tokens(map))"]
     ctx.check(len(it) == 1 and len(it2) == 1, rule, fn, "loops", "all sections and, per section, all tokens are visited")
